@@ -99,7 +99,11 @@ class ExprMixin:
             elif isinstance(p, PreSeq):
                 total = total + self.smt.int("len!" + p.path, nonneg=True)
             elif isinstance(p, MapPart):
-                total = total + self.smt.int(f"len!map{p.lid}", nonneg=True)
+                if p.total and not p.once and p.alts and all(len(items) == 1 for _g, items in p.alts):
+                    # one item per element of the iterated sequence: same length
+                    total = total + self.parts_len(p.seq)
+                else:
+                    total = total + self.smt.int(f"len!map{p.lid}", nonneg=True)
             else:
                 raise Unsupported("len of part")
         return z3.simplify(total)
@@ -1073,7 +1077,8 @@ class ExprMixin:
                 w.in_loop = True
                 base.writes.append(w)
         base.effects.append(Effect("loop", lid=lid, seq=p, elem=elem, body=body))
-        return MapPart((p,), elem, tuple(alts), lid)
+        total = not ifs and all(o.status == "normal" and o.value is not None for o in outs)
+        return MapPart((p,), elem, tuple(alts), lid, False, total)
 
     def adopt_heap(self, base, other):
         for oid, h in other.heap.items():
